@@ -82,4 +82,16 @@ CHECKS["C06"] = {
     "assumptions": COMMON_ASSUMPTIONS,
 }
 
+CHECKS["C07"] = {
+    "package": "seq", "bin": "c07", "flavor": "seq",
+    "shards": {"quick": 4, "thorough": 16},
+    "level": "exploration",
+    "technique": "runtime monitoring: trace specification over (arrival, decision, start instant) observed at Controller::perform_checking and at EntryBuilder::build() bracketed by virtual-clock readings (virtual sleeps advance the clock)",
+    "rule": "cases = flow throttling rules (rate 0..1000 incl. fractional per 100..10000 ms, max queueing 0..2000 ms) and hotspot QPS throttling rules (rate 0..1000 per 1..3 s, 1-3 parameter values), each driven either through perform_checking (no sleeping: bursts at one instant) or through build() (caller really delayed); arrivals placed at the same instant, exactly on / 1-2 clock units around the next free slot, exactly on / around the instant where the wait equals the maximum, after short and long gaps; batch 1..5. Non-trivial iff the case contains a wait, a rejection and an immediate pass; distinct = distinct (family, observation point, rate, interval, max queueing, burst?, edge arrival?, batch>1?)",
+    "level_text": "For every pair of consecutive admissions the start instants must be >= batch*interval/rate apart, no admitted request is held longer than the maximum queueing time, a rejection must be justified by a wait beyond it (or threshold 0 / batch above threshold), and build() must not return before the slot; exploration.",
+    "level_note": "Slack: 2 ns for flow (float to integer truncation), 1 ms for hotspot (the rule works in whole milliseconds); at wait == max a hotspot rule may queue or reject, a flow rule must queue. TokenResult::Wait is read as nanoseconds, as documented.",
+    "design_ref": "DESIGN.md §5 C07",
+    "assumptions": COMMON_ASSUMPTIONS + ["the virtual sleep hook is the only way the library blocks the caller"],
+}
+
 NOT_APPLICABLE = {}
